@@ -312,7 +312,7 @@ def main():
                 plain = rfile + '.vals'; write_replay(plain, vals)
                 rc, out = native_replay(exes[ek], plain)
                 os.remove(plain)
-                status = 'confirmed' if rc != 0 else 'not-reproduced'
+                status = 'confirmed' if rc not in (0, 4) else 'not-reproduced'
                 v['native_rc'] = rc; v['native_out'] = out[-600:]
             except Exception as ex_:
                 status = 'replay-build-failed'; v['native_out'] = str(ex_)[-300:]
